@@ -14,7 +14,7 @@ EXH = [b"0", b"1", b"a", b":", b"-", b"~", b"+", b".", b" ", b"\xc2", b"\xa0", b
 
 
 def rand_triple(rng):
-    e = rng.choice([0, 0, 0, 1, 2, 10, 2**31, 2**63 - 1, rng.randrange(2**63)])
+    e = rng.choice([0, 0, 0, 1, 2, 10, 2**31, 2**63 - 1, 2**63, 2**64 - 1, rng.randrange(2**63), rng.randrange(2**64)])
     n = rng.randrange(1, 12)
     alpha = UP + (b":" if rng.random() < 0.3 else b"") + (b"-" if rng.random() < 0.3 else b"")
     up = bytes([rng.choice(b"0123456789")]) + bytes(rng.choice(alpha) for _ in range(n - 1))
@@ -33,9 +33,7 @@ def renderings(rng, e, up, rv):
         # an explicit empty revision is legal only when... "1.0-" parses as upstream 1.0 revision "": same triple
         bodies.append(up + b"-")
     for body in bodies:
-        eps = [str(e).encode(), b"0" * rng.randrange(1, 3) + str(e).encode(), b"+" + str(e).encode()]
-        if e == 0:
-            eps.append(b"-0")
+        eps = [str(e).encode(), b"0" * rng.randrange(1, 3) + str(e).encode()]
         if e == 0 and b":" not in up:
             outs.append(body)
         for ep in eps:
@@ -63,6 +61,43 @@ def run(chk):
         if i != w:
             chk.violate({"kind": "property", "case": lib.show_case(c), "impl": i, "expected": w,
                          "explanation": "a well-formed version string did not parse to its (epoch, upstream, revision)"})
+    # 1b. an epoch is a run of digits: the same renderings with a SIGN in front of the epoch ("+1:", "-0:", "+0:" - what
+    # strconv.ParseInt would take) and with an epoch beyond the Epoch field are not version strings
+    cases = []
+    for _ in range(chk.n(400, 8000)):
+        e, up, rv = rand_triple(rng)
+        body = up + b"-" + rv if (rv or b"-" in up) else up
+        w1, w2 = rng.choice(WS), rng.choice(WS)
+        for ep in (b"+" + str(e).encode(), b"-" + str(e).encode(), b"-0", b"+0", b"+", b"-", str(2**64 + e).encode(), b"0" + str(2**64).encode()):
+            cases.append(("vparse", [w1 + ep + b":" + body + w2]))
+    impl, model = chk.run_both(cases)
+    chk.compare("signed-and-oversized-epochs", cases, impl, model)
+    for c, i in zip(cases, impl):
+        if i != "err":
+            chk.violate({"kind": "property", "case": lib.show_case(c), "impl": i, "expected": "err",
+                         "explanation": "a version string with a signed (non-numeric) or oversized epoch was accepted"})
+    # 1c. the same parser where uint has 32 bits (the harness built for GOARCH=386): an epoch either comes back with exactly
+    # its value or is refused - never reduced modulo 2^32
+    exe386 = lib.build_harness_386()
+    if exe386 is None:
+        chk.notes.append("no 32-bit harness could be built or run here: the GOARCH=386 epoch stream was skipped")
+    else:
+        cases = []
+        for _ in range(chk.n(300, 6000)):
+            e, up, rv = rand_triple(rng)
+            body = up + b"-" + rv if (rv or b"-" in up) else up
+            for ee in (e, e % 2**32, 2**32 + e % 1000, 2**32 - 1, 2**32, 2**31, 2**33 + 1, 2**32 * (1 + e % 7) + e % 3):
+                cases.append(("vparse", [str(ee).encode() + b":" + body]))
+        got = lib.run_lines(exe386, cases)
+        chk.record("epochs-on-a-32-bit-platform", cases, got)
+        for c, g in zip(cases, got):
+            ee = int(c[1][0].split(b":")[0])
+            if g != "err" and not g.startswith("ok %d " % ee):
+                chk.violate({"kind": "property", "case": lib.show_case(c), "impl": g, "platform": "GOARCH=386", "expected": "err, or ok %d ..." % ee,
+                             "explanation": "on a platform with a 32-bit uint an oversized epoch was accepted with another value than the one written"})
+            if ee < 2**32 and g == "err":
+                chk.violate({"kind": "property", "case": lib.show_case(c), "impl": g, "platform": "GOARCH=386",
+                             "explanation": "a well-formed version string whose epoch fits the Epoch field was refused"})
     # 2. exhaustive short strings
     ws = gen.words(EXH, 3 if chk.tier == "quick" else 4)
     cases = [("vparse", [w]) for w in ws]
@@ -173,12 +208,18 @@ def run(chk):
         if len(parts) < 3 or parts[2] != "ok 0 %s %s" % (uph, rvh):
             chk.violate({"kind": "property", "case": lib.show_case(c), "parsed": p, "without_epoch_reparsed": r,
                          "explanation": "Parse(StringWithoutEpoch(Parse(x))) is not Parse(x) with epoch 0"})
-    chk.assumptions += ["epoch values above 2^63-1 cannot come out of Parse (strconv.ParseInt(..,64)); the model's N is unbounded",
+    chk.assumptions += ["epoch values above 2^64-1 cannot come out of Parse (strconv.ParseUint(.., 0) on the 64-bit build the tie runs); the model's N is unbounded",
                         "error messages are not compared, only accept/reject and the three parts"]
 
 
 def replay(chk, d):
     c = lib.case_from_replay(d)
+    if d.get("platform") == "GOARCH=386":
+        exe = lib.build_harness_386()
+        i = lib.run_lines(exe, [c])[0] if exe else "no-32-bit-harness"
+        ee = int(c[1][0].split(b":")[0])
+        print("impl (GOARCH=386):", i)
+        return 0 if (i == "err" and ee >= 2**32) or i.startswith("ok %d " % ee) else 1
     i, m = chk.run_both([c])
     print("impl:", i[0], "model:", m[0])
     return 1 if i[0] != m[0] else 0
